@@ -883,6 +883,29 @@ def _cw_nfa_fn(ctx, v, NR, b, S, want):
                 okf = any(x[0] == "call" and core.callee_base(x[1]) == ITER_NEXT and x[2][0][0] == "var" and core.same(x[2][0], chars) for x in walk(idx))
             ctx.check(okf, "PERM-FREQ", b, "histogram:cw", b.span,
                       "the mapper's input must be a histogram over the chars passed to add (freqs[c] += 1 for each char)")
+            if okf:
+                # ... of EVERY pattern handed to add and of every one of its chars: from the successful return of add, each path to
+                # the next pattern passes the counting loop; inside it every char reaches the increment (what counts must not depend
+                # on what add found in the trie, i.e. on the registration order)
+                ppulls = [s_ for s_ in S.calls if s_["vw"] is root and core.callee_base(s_["key"]) == ITER_NEXT and b.in_cycle(s_["bb"]) and
+                          b.dominates(s_["bb"], adds[0]["bb"]) and s_["bb"] in b.reach(adds[0]["bb"])]
+                cpulls = [s_ for s_ in S.calls if s_["vw"] is root and core.callee_base(s_["key"]) == ITER_NEXT and
+                          core.same(pat.strip_iter(pat.iter_origin(s_["args"][0])), chars) and b.dominates(s_["bb"], incs[0]["bb"])]
+                okc = len(ppulls) >= 1 and len(cpulls) == 1
+                if okc:
+                    ppull = ppulls[-1]["bb"]
+                    errs_ = [x["bb"] for x in _err_exits(b)] + b.return_blocks()
+                    # every pattern: add -> (error exit | counting loop) before the next pattern is pulled
+                    okc = ppull not in b.reach(adds[0]["bb"], avoid_blocks=[cpulls[0]["bb"]] + errs_)
+                    # every char: pulled char -> increment before the next char
+                    csw = switches_on(root, lambda d: d[0] == "discr" and d[1][0] == "call" and d[1][3] == (b.path, cpulls[0]["bb"]))
+                    okc = okc and len(csw) == 1
+                    if okc:
+                        some_c = opt_arms(csw[0][1])[0]
+                        okc = cpulls[0]["bb"] not in (b.reach(some_c, avoid_blocks=[incs[0]["bb"]]) - {some_c} if some_c != incs[0]["bb"] else set())
+                ctx.check(okc, "PERM-FREQ", b, "every-pattern-counted:cw", b.span,
+                          "the chars of EVERY pattern passed to add must be counted (no pattern or char may be skipped depending on what "
+                          "add found: the histogram, and so the code assignment, must not depend on the registration order)")
             # the histogram's length must not depend on the order in which characters were seen: grown to exactly c+1
             rs = [s_ for s_ in S.keyed(lambda k: k == "alloc::vec::Vec::resize") if core.same(s_["args"][0], freqs)]
             okr = True
